@@ -23,6 +23,9 @@ TABLE = {"type": "types", "subroutine": "procs", "function": "procs", "generic":
 PREFIX = {"type": "t", "subroutine": "s", "function": "f", "generic": "g", "absint": "a", "variable": "v", "ctor": "k"}
 # "ctor" = a derived type and a generic interface (structure-constructor overload) sharing one name: one identifier
 # that lives in two of FORD's tables (types and procs)
+# when set, every using scope first names a module that is nowhere in the project (a third-party library): the USE
+# statements after it must be treated exactly as without it
+THIRD_PARTY_FIRST = [False]
 FORMS = ["plain", "only", "rename", "only+rename", "prefix", "dcolon-only", "two-stmts", "only-empty", "only-upper", "only-twice"]
 
 
@@ -87,7 +90,8 @@ class Mod:
     # ---- rendering -------------------------------------------------------------
     def source(self):
         self.imports()
-        L = [f"module {self.name}"] + ["  " + l for l in self._use_lines] + ["  implicit none"]
+        tp = ["use zz_thirdparty_lib", "use zz_other_lib, only: zz_thing"] if THIRD_PARTY_FIRST[0] and self._use_lines else []
+        L = [f"module {self.name}"] + ["  " + l for l in tp + self._use_lines] + ["  implicit none"]
         if self.default == "private":
             L.append("  private")
             pubs = [n for n, k, acc in self.own if acc] + self.explicit_public_imported()
@@ -227,6 +231,8 @@ def consumer_source(kind, used, tagc="z"):
             body.append(f"r_{n} = {n}()")
         elif k == "generic":
             body.append(f"call {n}(1)")
+    if THIRD_PARTY_FIRST[0]:
+        use_lines = ["use zz_thirdparty_lib", "use zz_other_lib, only: zz_thing"] + use_lines
     U = ["  " + l for l in use_lines]
     D = ["  " + l for l in decl]
     B = ["  " + l for l in body]
@@ -298,6 +304,7 @@ def expected_tables(visible):
 
 def run_case(st: Stats, case, perms):
     topo, dA, forms, dB, consumer, hide, *rest = case
+    THIRD_PARTY_FIRST[0] = bool(rest and len(rest) > 1 and rest[1])
     A = Mod(rest[0] if rest else "ma", dA, "a")
     mods = [A]
     if topo == "single":
@@ -340,7 +347,7 @@ def run_case(st: Stats, case, perms):
         st.evaluations += 1
         st.transitions += 1
         inp = dict(case=list(case), order=list(perm), files=files)
-        feats = dict(topo=topo, forms=",".join(forms), dA=dA, dB=dB, consumer=consumer, hide=hide, only_twice="only-twice" in forms, aname=A.name,
+        feats = dict(topo=topo, forms=",".join(forms), dA=dA, dB=dB, consumer=consumer, hide=hide, only_twice="only-twice" in forms, aname=A.name, third_party_first=THIRD_PARTY_FIRST[0],
                      order_is_sorted=list(perm) == names)
         if r.error is not None or "ERROR in file" in r.log or "Error parsing" in r.log:
             st.violation("ford-failed", stratum, feats, inp, (repr(r.error) + r.log[-300:]), "parses and correlates")
@@ -433,6 +440,13 @@ def gen_cases(tier):
             yield ("fan", dA, (f1, f2), "none", "program", False)
         for f1, f2 in itertools.product(["only", "rename", "only+rename", "two-stmts"], repeat=2):
             yield ("double", dA, (f1, f2), "none", "modproc", False)
+        # an unknown (third-party) module named before the project modules in every using scope
+        for f in F:
+            for c in cons_all:
+                yield ("single", dA, (f,), "none", c, False, "ma", True)
+        for f1, f2 in itertools.product(["plain", "only", "rename", "only+rename"], repeat=2):
+            for c in ("modproc", "program", "internal"):
+                yield ("chain2", dA, (f1, f2), "none", c, False, "ma", True)
         # a project module whose name is also that of an intrinsic / well-known third-party module: the project's wins
         for aname in ("mpi", "iso_fortran_env"):
             for f in ("plain", "prefix", "only", "only+rename"):
